@@ -35,25 +35,73 @@ type In struct {
 	Merges    int       `json:"merges"`
 	DelaySeed uint64    `json:"delay_seed"`
 	DelayUS   int       `json:"delay_us"`
+	// churn writers (trace runs): Churners goroutines (0 = 1) issue batches of 1..ChurnOps (0 = 2)
+	// updates/deletes over a shared family of ChurnIDs (0 = 6) documents, concurrently with each other
+	Churners int `json:"churners,omitempty"`
+	ChurnOps int `json:"churn_ops,omitempty"`
+	ChurnIDs int `json:"churn_ids,omitempty"`
+	// StallUS > 0: the persister is delayed by up to StallUS between two of its rounds (half of the
+	// rounds), so that the segments of several concurrent / unsafe batches are in front of it at once
+	StallUS int `json:"stall_us,omitempty"`
+	// StraddleUS > 0: a quarter of the batches wait (up to StraddleUS) between their optimistic pass over
+	// the root (prepareSegment) and their introduction until some merge has been introduced, and
+	// merges are forced for the whole run: batches that straddle a merge introduction
+	StraddleUS int `json:"straddle_us,omitempty"`
+	// Ser != nil: the writers-on-the-same-documents scenario of ser.go (the fields above are unused)
+	Ser *SerSpec `json:"ser,omitempty"`
 }
 
 func gen(f vh.Flags, r *vrand.R, emit func(In)) {
-	n := f.N(15, 400)
+	n := f.N(16, 400)
 	for k := 0; k < n; k++ {
 		in := In{Writers: r.Range(2, 3), Family: r.Range(2, 3), Batches: r.Range(8, 25), Searchers: r.Range(1, 3),
 			Holders: r.Range(1, 2), Merges: r.Range(2, 10), DelaySeed: r.U64(), DelayUS: vrand.Pick(r, []int{50, 300, 1500})}
-		switch k % 5 {
-		case 4:
+		switch k % 8 {
+		case 1, 4, 7:
+			// the persister's flush-set path and other generated non-default persister / merge-planner
+			// options, with several churn writers issuing multi-document batches over one small family:
+			// many unpersisted, partly obsoleted segments per persister round
+			in.Layout = sw.GenFlushLayout(r)
+			if r.Chance(1, 4) {
+				in.Layout.PO = sw.GenPersisterOpts(r, false)
+			}
+			in.Layout.Unsafe = r.Bool()
+			in.Churners, in.ChurnOps, in.ChurnIDs = r.Range(2, 4), r.Range(2, 4), r.Range(5, 9)
+			in.StallUS = vrand.Pick(r, []int{5000, 12000, 30000})
+			in.Batches = r.Range(8, 16)
+		case 5:
 			in.Layout = sw.Layout{Config: vrand.Pick(r, []string{"udc-gtreap", "udc-moss", "udc-boltdb"})}
 			if in.Layout.Config == "udc-boltdb" {
 				in.Holders = 0 // a held bolt read transaction blocks writers that need to grow the file (bbolt behaviour)
 			}
-		case 3:
+		case 2:
 			in.Layout = sw.Layout{Config: "scorch-mem"}
 		default:
 			in.Layout = sw.Layout{Config: "scorch-disk", Opts: r.Intn(5), Unsafe: r.Chance(1, 3)}
+			in.StraddleUS = vrand.Pick(r, []int{0, 3000, 10000})
 		}
 		emit(in)
+	}
+	for k, ns := 0, f.N(14, 800); k < ns; k++ {
+		emit(genSer(r))
+	}
+}
+
+// waitProgress waits for finished; it gives up (false) only when the progress counter has not moved
+// for stall: a slow machine makes a run long, only a hang makes it stop moving.
+func waitProgress(finished <-chan struct{}, progress *int64, stall time.Duration) bool {
+	last, lastAt := atomic.LoadInt64(progress), time.Now()
+	for {
+		select {
+		case <-finished:
+			return true
+		case <-time.After(200 * time.Millisecond):
+		}
+		if p := atomic.LoadInt64(progress); p != last {
+			last, lastAt = p, time.Now()
+		} else if time.Since(lastAt) > stall {
+			return false
+		}
 	}
 }
 
@@ -72,7 +120,26 @@ func (o obsRec) term() cf.T {
 		cf.ListOf(o.seen, func(vs []*int64) cf.T { return cf.ListOf(vs, optV) }), cf.ListOf(o.ints, optV))
 }
 
+// exec runs every scorch-disk input in a child process: a failure inside the persister's
+// in-memory merge or the merger is a panic on a goroutine scorch started, which nothing in this
+// process could recover (the run would end as "harness crashed" without the input).
 func exec(in In) vh.Result {
+	if os.Getenv("VH_TIMING") != "" {
+		t0 := time.Now()
+		defer func() {
+			fmt.Fprintf(os.Stderr, "TIMING %.2fs %s ser=%v po=%v straddle=%d stall=%d batches=%d churners=%d\n", time.Since(t0).Seconds(), in.Layout.Config, in.Ser != nil, in.Layout.PO != nil, in.StraddleUS, in.StallUS, in.Batches, in.Churners)
+		}()
+	}
+	if in.Layout.Config == "scorch-disk" {
+		return vh.Isolate(in, 12*time.Minute)
+	}
+	return execHere(in)
+}
+
+func execHere(in In) vh.Result {
+	if in.Ser != nil {
+		return execSer(in)
+	}
 	idx, path, dir, err := sw.Open(in.Layout)
 	if dir != "" {
 		defer os.RemoveAll(dir)
@@ -85,12 +152,17 @@ func exec(in In) vh.Result {
 	if trace {
 		rec = strace.Start(path)
 		defer rec.Stop()
-		if in.DelayUS > 0 {
+		if in.DelayUS > 0 || in.StallUS > 0 || in.StraddleUS > 0 {
 			var dmu sync.Mutex
+			var mergeIntros int64
 			dr := vrand.New(in.DelaySeed)
 			rec.OnEvent = func(ev *scorch.VerifEvent) {
+				if ev.Kind == "merge_finish" {
+					atomic.AddInt64(&mergeIntros, 1)
+				}
+				straddle := false
 				dmu.Lock()
-				d := dr.Intn(in.DelayUS)
+				d := dr.Intn(max(in.DelayUS, 1))
 				skip := dr.Chance(2, 3)
 				// widen the windows in which a merge is in flight or a batch has computed its
 				// optimistic obsoletions but has not been introduced yet (no lock is held at these points)
@@ -107,8 +179,22 @@ func exec(in In) vh.Result {
 					if dr.Chance(1, 4) {
 						d, skip = 500+dr.Intn(4000), false
 					}
+					if in.StraddleUS > 0 && dr.Chance(1, 4) {
+						straddle = true
+					}
+				case "persist_release_waiters":
+					if in.StallUS > 0 && dr.Chance(1, 2) {
+						d, skip = in.StallUS/4+dr.Intn(in.StallUS), false
+					}
 				}
 				dmu.Unlock()
+				if straddle {
+					// no lock is held here and the introducer does not depend on this batch: bounded wait
+					seen, deadline := atomic.LoadInt64(&mergeIntros), time.Now().Add(time.Duration(in.StraddleUS)*time.Microsecond)
+					for atomic.LoadInt64(&mergeIntros) == seen && time.Now().Before(deadline) {
+						time.Sleep(100 * time.Microsecond)
+					}
+				}
 				if !skip {
 					time.Sleep(time.Duration(d) * time.Microsecond)
 				}
@@ -120,7 +206,16 @@ func exec(in In) vh.Result {
 	// writer updates or deletes one or two at a time: its segments carry PARTIAL deletions (the
 	// observed families always obsolete a whole segment at once), which is what the deleted-since
 	// bookkeeping of merges has to get right.  It is judged through the event trace only.
-	const churn = 6
+	churn, churners, churnOps := 6, 1, 2
+	if in.ChurnIDs > 0 {
+		churn = in.ChurnIDs
+	}
+	if in.Churners > 0 {
+		churners = in.Churners
+	}
+	if in.ChurnOps > 0 {
+		churnOps = in.ChurnOps
+	}
 	nids := W*F + churn
 	acked := make([]int64, W)
 	submitted := make([]int64, W)
@@ -144,6 +239,7 @@ func exec(in In) vh.Result {
 	}
 	var wg sync.WaitGroup
 	done := make(chan struct{})
+	var progress int64 // batches acknowledged so far (all writers): the watchdog's notion of "still alive"
 	// writers
 	for w := 0; w < W; w++ {
 		wg.Add(1)
@@ -168,22 +264,27 @@ func exec(in In) vh.Result {
 					return
 				}
 				atomic.StoreInt64(&acked[w], j)
+				atomic.AddInt64(&progress, 1)
 			}
 		}(w)
 	}
-	if trace {
+	for c := 0; trace && c < churners; c++ {
 		wg.Add(1)
-		go func() {
+		go func(c int) {
 			defer wg.Done()
-			cr := vrand.New(in.DelaySeed ^ 0x5bd1e995)
-			for j := int64(1); j <= int64(2*in.Batches); j++ {
+			cr := vrand.New(in.DelaySeed ^ 0x5bd1e995 + uint64(c)*0x9e3779b97f4a7c15)
+			nb := int64(2 * in.Batches)
+			if churners > 1 {
+				nb = int64(in.Batches)
+			}
+			for j := int64(1); j <= nb; j++ {
 				var ops []sw.Op
-				for k := cr.Range(1, 2); k > 0; k-- {
+				for k := cr.Range(1, churnOps); k > 0; k-- {
 					id := W*F + cr.Intn(churn)
 					if cr.Chance(1, 4) {
 						ops = append(ops, sw.Op{Kind: "delete", ID: id})
 					} else {
-						ops = append(ops, sw.Op{Kind: "index", ID: id, Ver: 1000 + j})
+						ops = append(ops, sw.Op{Kind: "index", ID: id, Ver: int64(1000*(c+1)) + j})
 					}
 				}
 				tgMu.Lock()
@@ -197,8 +298,9 @@ func exec(in In) vh.Result {
 					fail(err)
 					return
 				}
+				atomic.AddInt64(&progress, 1)
 			}
-		}()
+		}(c)
 	}
 	// searchers: one Search = one snapshot
 	var rg sync.WaitGroup
@@ -349,11 +451,19 @@ func exec(in In) vh.Result {
 		rg.Add(1)
 		go func() {
 			defer rg.Done()
-			for m := 0; m < in.Merges; m++ {
+			nm := in.Merges
+			if in.StraddleUS > 0 {
+				nm = 60 // until the writers are done
+			}
+			for m := 0; m < nm; m++ {
+				pause := 2 * time.Millisecond
+				if m >= in.Merges {
+					pause = 5 * time.Millisecond
+				}
 				select {
 				case <-done:
 					return
-				case <-time.After(2 * time.Millisecond):
+				case <-time.After(pause):
 				}
 				sw.ForceMerge(idx)
 			}
@@ -361,11 +471,9 @@ func exec(in In) vh.Result {
 	}
 	wdone := make(chan struct{})
 	go func() { wg.Wait(); close(wdone) }()
-	select {
-	case <-wdone:
-	case <-time.After(60 * time.Second):
+	if !waitProgress(wdone, &progress, 90*time.Second) {
 		close(done)
-		return vh.Result{Direct: &vh.Direct{Kind: "timeout", Detail: "writers did not finish within 60s (deadlock or lost wake-up?)"}}
+		return vh.Result{Direct: &vh.Direct{Kind: "timeout", Detail: "no batch call returned for 90s while writers were still running (deadlock or lost wake-up?)"}}
 	}
 	time.Sleep(5 * time.Millisecond)
 	close(done)
@@ -387,6 +495,11 @@ func exec(in In) vh.Result {
 		tr, mm, fm, _ = sw.TraceCase(rec, tg, nids, final)
 		cases = append(cases, tr)
 		hist = append(hist, fmt.Sprintf("mem_merges=%d", min(mm, 6)), fmt.Sprintf("file_merges=%d", min(fm, 6)))
+		if in.Layout.PO != nil {
+			multi, multiDrops := sw.FlushRounds(rec)
+			hist = append(hist, "flush", fmt.Sprintf("flush:nonlegacy=%v", in.Layout.PO.NonLegacy()), fmt.Sprintf("flush:rounds_with_2+_flush_batches=%d", min(multi, 4)),
+				fmt.Sprintf("flush:such_rounds_with_partly_obsoleted_segments=%d", min(multiDrops, 4)))
+		}
 	}
 	// distinct in-flight observations: some family strictly between acked and submitted, or mid-history
 	mid := 0
@@ -398,7 +511,7 @@ func exec(in In) vh.Result {
 			}
 		}
 	}
-	res := vh.Result{Term: cf.App("CMulti", cf.List(cases)), Nontrivial: mid >= 3 && (!trace || mm+fm > 0), Hist: hist}
+	res := vh.Result{Term: cf.App("CBase", cf.App("CMulti", cf.List(cases))), Nontrivial: mid >= 3 && (!trace || mm+fm > 0), Hist: hist}
 	if trace {
 		res.Traces = 1
 	}
@@ -409,14 +522,20 @@ func exec(in In) vh.Result {
 }
 
 func main() {
+	if vh.IsolatedChild(execHere) {
+		return
+	}
 	vh.Main(vh.Config{
 		Property:  "C04",
-		Imports:   []string{"Common.Bytes", "Scorch.Model", "Scorch.Corr"},
-		CaseType:  "Corr.case",
-		CheckFn:   "Corr.check",
-		ExplainFn: "Corr.explain",
+		Imports:   []string{"Common.Bytes", "Scorch.Model", "Scorch.Corr", "Scorch.Ser", "Scorch.ConcCorr"},
+		CaseType:  "ConcCorr.case",
+		CheckFn:   "ConcCorr.check",
+		ExplainFn: "ConcCorr.explain",
 		Rule: "2-3 writers (each rewriting its own family of 2-3 documents and its internal key with the batch number, 8-25 batches), 1-3 searchers, 1-2 long-lived reader holders and forced merges run concurrently on scorch-disk (5 persister/merge option variants, safe and unsafe batches, seeded delays of up to 1.5 ms injected at the hook points), scorch-mem and upsidedown; " +
-			"every observation comes from one Search or one held reader; non-trivial: at least 3 observations fall strictly inside the history and (for disk runs) a merge was introduced during the run",
+			"3 of 8 runs use generated non-default persister options (1-4 workers, MaxSizeInMemoryMergePerWorker 1 byte - 1 MB: the flush-set path, naps, memory-pressure threshold) and merge-planner options with 2-4 concurrent churn writers (batches of 1-4 updates/deletes over one family of 5-9 documents) and a persister stalled for up to 6-38 ms between rounds; " +
+			"in two thirds of the option-variant disk runs a quarter of the batches wait (up to 3-10 ms) between their optimistic pass over the root and their introduction until a merge has been introduced, with merges forced throughout the run; " +
+			"every observation comes from one Search or one held reader; non-trivial: at least 3 observations fall strictly inside the history and (for disk runs) a merge was introduced during the run; " +
+			"plus serialisability runs (CSer): 2-5 goroutines whose batches touch the same 1-3 documents (0-2 of them issuing 1-3 large batches that also rewrite 6-20 private documents, the others 3-7 tiny batches; standard analyzer or one slowed by 100-800 us per document) on upsidedown over gtreap/boltdb/goleveldb, scorch-mem and scorch-disk, observed by 1-3 index-reader clients and optionally a match-all search client (up to 60 observations each) and once after all calls returned; non-trivial: at least 3 observations taken while batches were in flight",
 		ShardSize: 1,
 		Workers:   3,
 	}, gen, exec)
